@@ -855,6 +855,7 @@ func checkC18(c *Ctx, r *Report) {
 	c18Num(c, r)
 	c18RawAccept(c, r)
 	c18UAccept(c, r)
+	c18NumLen(c, r)
 	sepRule(c, r, "C18.SEP", true)
 	sepRule(c, r, "C18.SEPJ", false)
 	r.rule("C18.NEST", "every nest() of the reader is matched by unnest() (call or defer) on every path to a successful return of the calling function")
